@@ -104,9 +104,54 @@ def oracle_header_field(v, version="1.4"):
     return None
 
 
+def oracle_objects(rng):
+    """flags across objects and across LasData operations: each header owns its 16-bit field; nothing but an assignment changes it"""
+    import laspy
+    import numpy as np
+    from laspy.vlrs.known import WktCoordinateSystemVlr
+    out = []
+    a = laspy.LasHeader(version="1.4", point_format=6)
+    a.global_encoding.value = 0x8011
+    b = laspy.LasHeader(version="1.2", point_format=0)
+    if b.global_encoding.value != 0:
+        out.append(("fresh header starts non-zero", {"after": "another header was given 0x8011"}, f"a freshly created header starts with field {b.global_encoding.value:#06x}"))
+    b.global_encoding.wkt = False
+    b.global_encoding.gps_time_type = 0
+    if a.global_encoding.value != 0x8011:
+        out.append(("flags shared between headers", {}, f"header A changed to {a.global_encoding.value:#06x} when flags of header B were assigned"))
+    c = laspy.create(point_format=3)
+    if c.header.global_encoding is a.global_encoding or c.header.global_encoding.value != 0:
+        out.append(("fresh header starts non-zero", {"via": "laspy.create"}, f"field {c.header.global_encoding.value:#06x}"))
+    # through LasData operations, with a WKT record present (a tempting place to 'repair' the WKT flag)
+    for ver, fmt in (("1.4", 6), ("1.4", 3), ("1.2", 1)):
+        for v in (0x0000, 0x0001, 0x0010, 0xFFEF, 0x8000, rng.randrange(65536) & ~0x10):
+            las = laspy.LasData(laspy.LasHeader(version=ver, point_format=fmt))
+            las.vlrs.append(WktCoordinateSystemVlr('GEOGCS["WGS 84"]'))
+            las.header.global_encoding.value = v
+            steps = []
+            las.points = laspy.ScaleAwarePointRecord.zeros(3, header=las.header); steps.append("points assigned")
+            if las.header.global_encoding.value != v:
+                out.append(("flag changed by LasData operation", {"version": ver, "value": v, "after": steps[-1]}, f"field became {las.header.global_encoding.value:#06x}"))
+                continue
+            las.update_header(); steps.append("update_header()")
+            sub = las[np.array([0, 2])]; steps.append("las[index]")
+            bio = io.BytesIO(); las.write(bio); steps.append("write")
+            back = laspy.read(io.BytesIO(bio.getvalue()))
+            for nm, val in (("after update_header/write", las.header.global_encoding.value), ("of las[index]", sub.header.global_encoding.value),
+                            ("in the written file", int.from_bytes(bio.getvalue()[6:8], "little")), ("read back", back.header.global_encoding.value)):
+                if val != v:
+                    out.append(("flag changed by LasData operation", {"version": ver, "value": v, "where": nm}, f"field {nm} is {val:#06x}, was set to {v:#06x}"))
+                    break
+    return out
+
+
 def search(ctx, seeds):
     failing = []
     seen = set()
+    for kind, inp, why in oracle_objects(ctx.rng):
+        if kind not in seen:
+            seen.add(kind)
+            failing.append({"kind": kind, "input": inp, "observed": why})
     for v in range(65536):
         for i in range(5):
             for b in (True, False):
